@@ -182,46 +182,66 @@ def cascade(ctx, R):
               'entries of the appearance result are dropped (%s) before the positional stage is fed: a detection that '
               'claimed a track by appearance and lost can now be attached positionally to another track' % (
                   dropped or [c.name for c in retains] or 'no chain from BestFitVoting::winners found'))
-    # remaining-distances filter
+    # remaining distances: a pair reaches the positional stage only if its detection has no appearance winner, its
+    # track was not taken by appearance and it carries a positional weight. Form independent: the facts are taken from
+    # the predicate of a filter / filter_map over the second copy of the stream, or - for an explicit loop - from the
+    # path conditions of the block that hands the pair on (push / insert of the remaining sets).
+    from lib import necessary_keep_facts
+
+    def classify(facts):
+        got = {}
+        for v in facts.values():
+            if v[0] != 'bool' or v[2].kind != 'call':
+                continue
+            nm = v[2].name.rsplit('::', 1)[-1]
+            arg = v[2].args[-1]
+            fld = 'from' if arg.has_field('from') else ('to' if arg.has_field('to') else (
+                'attribute_metric' if v[2].has_field('attribute_metric') else '?'))
+            if nm == 'is_none':
+                nm, truth = 'is_some', (not v[1])
+            else:
+                truth = v[1]
+            got[(nm, fld)] = truth
+        return got
+    need = {('contains_key', 'from'): False, ('contains', 'to'): False, ('is_some', 'attribute_metric'): True}
     found = False
-    for c in b.find_calls('std::iter::Iterator::filter'):
+    verdicts = []
+    for c in b.find_calls('std::iter::Iterator::filter', 'std::iter::Iterator::filter_map'):
         for cb in closure_args_of_call(F, b, c):
             if not cb.find_calls('std::collections::HashMap::contains_key', 'std::collections::HashSet::contains'):
                 continue
             found = True
-            paths = eval_bool_paths(cb)
-            ebc = ExprBuilder(cb)
-            good = bool(paths)
-            why = []
-            for conds, v in paths:
-                facts = {}
-                for k in conds:
-                    if k.kind == 'bool' and k.expr.kind == 'call':
-                        nm = k.expr.name.rsplit('::', 1)[-1]
-                        fld = 'from' if k.expr.args[-1].has_field('from') else ('to' if k.expr.args[-1].has_field('to') else (
-                            'attribute_metric' if k.expr.has_field('attribute_metric') else '?'))
-                        facts[(nm, fld)] = k.truth
-                if v is not False:
-                    need = {('contains_key', 'from'): False, ('contains', 'to'): False, ('is_some', 'attribute_metric'): True}
-                    if v is None:
-                        # result is a non-constant expression: the last conjunct is the result itself
-                        e = ebc.place(0, ())
-                        for x in e.walk():
-                            if x.kind == 'call' and x.name.endswith('is_some') and x.has_field('attribute_metric'):
-                                facts[('is_some', 'attribute_metric')] = True
-                    for kk, vv in need.items():
-                        if facts.get(kk) != vv:
-                            good = False
-                            why.append('%s(%s) not required to be %s' % (kk[0], kk[1], vv))
-            n += 1
-            ctx.check(good, R, cb, 'positional-stage-sees-only-unclaimed-detections-and-free-tracks', '',
-                      'the pairs handed to the positional stage are not restricted to detections without an '
-                      'appearance winner, tracks not taken by appearance, and pairs with a positional weight (%s)' %
-                      sorted(set(why)))
-            recv = ExprBuilder(b).arg(c, 0)
-            n += 1
-            ctx.check(recv.has_call('tee'), R, b, 'both-stages-see-the-same-stream', '',
-                      'the positional stage does not read a copy (tee) of the distance stream of the appearance stage')
+            kf, _pay = necessary_keep_facts(cb)
+            got = classify(kf)
+            verdicts.append((cb, [k for k, v in need.items() if got.get(k) != v], ExprBuilder(b).arg(c, 0)))
+    if not found:
+        # loop form: the hand-over point is where the pair (or its ids) is pushed / inserted
+        for c in b.find_calls('std::vec::Vec::push'):
+            conds = path_conditions(b, c.bb)
+            if not any(k.kind == 'bool' and k.expr.kind == 'call' and k.expr.name.rsplit('::', 1)[-1] in (
+                    'contains_key', 'contains') for k in conds):
+                continue
+            found = True
+            kf = {}
+            for k in conds:
+                if k.kind == 'bool' and k.truth is not None:
+                    kf['bool:%s:%r' % (k.truth, k.expr)] = ('bool', k.truth, k.expr)
+                elif k.kind == 'discr' and k.variants == {'Some'} and k.expr.has_field('attribute_metric'):
+                    from lib import E
+                    kf['some'] = ('bool', True, E('call', name='is_some', args=[k.expr]))
+            got = classify(kf)
+            src = [x for x in b.find_calls('std::iter::Iterator::next') if b.dominates(x.bb, c.bb)]
+            verdicts.append((b, [k for k, v in need.items() if got.get(k) != v],
+                             ExprBuilder(b).arg(src[-1], 0) if src else None))
+    for cb, missing, recv in verdicts:
+        n += 1
+        ctx.check(not missing, R, cb, 'positional-stage-sees-only-unclaimed-detections-and-free-tracks', '',
+                  'the pairs handed to the positional stage are not restricted to detections without an '
+                  'appearance winner, tracks not taken by appearance, and pairs with a positional weight (%s)' %
+                  ['%s(%s) not required to be %s' % (k[0], k[1], need[k]) for k in missing])
+        n += 1
+        ctx.check(recv is not None and recv.has_call('tee'), R, b, 'both-stages-see-the-same-stream', '',
+                  'the positional stage does not read a copy (tee) of the distance stream of the appearance stage')
     if not found:
         ctx.fail(R, b, 'positional-stage-sees-only-unclaimed-detections-and-free-tracks', 'ANCHOR-MISSING: filter of '
                  'the remaining distances not found')
